@@ -104,6 +104,65 @@ def run(loader, R, tier):
         sym.visit_guarded(f["body"], cb)
     R.floor("TypeID casts in the deserialiser", n1, 1)
 
+    # ------------------------------------------------------------ R20.7b
+    # the entry points: every use of a cereal input archive in a loads()
+    # function (its construction reads a header byte; reading the version
+    # and plain integers goes through no translating loader) is lexically
+    # inside a try that translates cereal::Exception
+    nent = 0
+    for u, f in sorted(prog.functions.items(), key=lambda kv: kv[1]["qn"]):
+        if f["n"] != "loads" or not f.get("body") or f.get("dependent") \
+                or "/symengine/" not in (f.get("file") or ""):
+            continue
+
+        def scan(st, in_try):
+            out = []
+            if not isinstance(st, dict):
+                return out
+            if st.get("k") == "try":
+                ok = any(("cereal::Exception" in h.get("t", "")
+                          or h.get("t") == "...")
+                         and any(n.get("k") == "throw"
+                                 and "SerializationError" in n.get("t", "")
+                                 for n in walk(h["b"]))
+                         for h in st.get("h", ()))
+                out += scan(st.get("b"), in_try or ok)
+                return out
+            if st.get("k") == "decl":
+                for v in st.get("v", ()):
+                    if "InputArchive" in (v.get("t") or "") and not in_try:
+                        out.append((st.get("l"), "constructs the archive"))
+            if st.get("k") == "expr":
+                e = st.get("e") or {}
+                if e.get("k") == "op" and e.get("op") == "()" and any(
+                        "InputArchive" in (y.get("t") or "")
+                        for y in walk((e.get("a") or [{}])[0])) \
+                        and not in_try:
+                    out.append((st.get("l"), "reads from the archive"))
+            for key in ("s",):
+                for x in st.get(key, ()) or ():
+                    out += scan(x, in_try)
+            for key in ("t", "e", "b"):
+                if isinstance(st.get(key), dict):
+                    out += scan(st[key], in_try)
+            return out
+        uses = [n for n in walk(f["body"])
+                if "InputArchive" in (n.get("t") or "")]
+        if not uses:
+            continue
+        nent += 1
+        tag = short(f["qn"])
+        R.instance("R20.7", tag)
+        bad = scan(f["body"], False)
+        if bad:
+            R.violation(
+                "R20.7", tag, prog.loc(f, bad[0][0]),
+                "%s %s (line %s) outside any try that translates "
+                "cereal::Exception: input that ends inside the header "
+                "(e.g. an empty string) escapes as a foreign exception"
+                % (tag, bad[0][1], bad[0][0]))
+    R.floor("loads() entry points using a cereal archive", nent, 2)
+
     # ------------------------------------------------------- R20.2 .. R20.7
     loaders = AR.all_loader_instances(prog)
     if len(loaders) < 3:
